@@ -54,6 +54,7 @@ def yaml_safe(v):
 def gen_case(rng, i):
     fmt = rng.choice(["json", "json", "json", "yaml", "ini"])
     names = ["Root"] if rng.random() < 0.75 else ["Root", "Second"]
+    force_merge = None
     files = []  # (relative path, document)
     args = []   # argv pieces in order: ("-m"|"-l", name, lookup|None, path_or_pattern)
     expect = {n: [] for n in names}
@@ -72,6 +73,16 @@ def gen_case(rng, i):
             # id-keyed objects: one family per object, and one object mixing two families (no single pattern covers it)
             samples[0] = dict(samples[0], by_node={"node_1": 1.5, "node_2": 2.5}, by_day={"2020_01": 1, "2020_02": 2},
                               mixed={"node_1": 1.5, "2020_01": 2.5, "k7": 3.5})
+        if rng.random() < 0.2:
+            # --merge percent_N with two objects whose key overlap is exactly N/100 (and just below)
+            N = rng.choice([35, 41, 47, 57, 69, 70, 82, 83, 94, 95, 50, 75, 80, 90])
+            den = rng.choice([d for d in (20, 100, 10, 50) if (N * d) % 100 == 0] or [100])
+            shared = N * den // 100
+            rest = den - shared
+            common = {f"c{j}": j for j in range(shared)}
+            samples[0] = dict(samples[0], pct_a={**common, **{f"a{j}": 1 for j in range(rest // 2)}},
+                              pct_b={**common, **{f"b{j}": 1 for j in range(rest - rest // 2)}})
+            force_merge = [f"percent_{N}"]
         if rng.random() < 0.2:
             # two wide objects sharing 10 keys but < 70 % of them: merged only by the default number_10 policy
             common = {f"c{j}": j for j in range(10)}
@@ -154,6 +165,8 @@ def gen_case(rng, i):
          "disable": rng.choice([None, None, ["int"], ["float", "bool"], ["IntString"], ["date"], ["datetime", "time"], ["IsoDateString"]]),
          "meta": rng.choice([None, None, "true", "false"]), "preamble": rng.choice([None, None, "# preamble comment", "X = 1\nY = 2"]),
          "output_file": rng.random() < 0.3, "dkf": None, "dkr": None}
+    if force_merge:
+        o["merge"] = force_merge
     allkeys = sorted({k for _p, d in files for k in gen.collect_keys([d] if isinstance(d, dict) else d if isinstance(d, list) else [])})
     if rng.random() < 0.25 and allkeys:
         o["dkf"] = rng.sample(allkeys, min(len(allkeys), 2))
